@@ -85,6 +85,13 @@ fn ctypes() -> Vec<ContentType> {
         ContentType::FormUrlEncoded,
         ContentType::Str("application/x-custom"),
         ContentType::String("text/x; q=1".to_string()),
+        // custom texts whose media type is one the library has a variant for: the handler's text goes out as it is
+        ContentType::Str("text/html"),
+        ContentType::Str("Text/Plain"),
+        ContentType::String("text/plain; charset=ISO-8859-1".to_string()),
+        ContentType::String("multipart/form-data; boundary=xYz123".to_string()),
+        ContentType::String("application/json".to_string()),
+        ContentType::Str("image/svg+xml"),
     ]
 }
 
@@ -765,6 +772,12 @@ pub fn run_status(_args: &Args, mut out: Out) {
             conn.read_request().await.unwrap();
             // the marker must not depend on what else the handler put into the response
             let resp = match code % 4 {
+                // (a body of unknown length, sent in chunks: some 5xx and some 2xx codes)
+                _ if (code % 7 == 3) && ((500..=599).contains(&code) || (200..=203).contains(&code)) => {
+                    let (sender, r) = Response::event_stream();
+                    drop(sender);
+                    r.with_status(code)
+                }
                 0 => Response::new(code),
                 1 => Response::new(code).with_header("Connection", "keep-alive".try_into().unwrap()),
                 2 => Response::new(code).with_header("x-extra", "1".try_into().unwrap()).with_header("keep-alive", "timeout=5".try_into().unwrap()),
